@@ -392,13 +392,14 @@ PROPS["C17"] = {
 
 PROPS["C18"] = {
     "level": "other",
-    "technique": "Kani proof harnesses on the real mark/log/pin transition functions for every metadata placement of the harness binding family (CBMC); sequential kernel only",
+    "technique": "Kani proof harnesses on the real mark/log/pin transition functions for every metadata placement of the harness binding family (CBMC), plus a Verus client lemma over the extracted LargeObjectSpace::test_and_mark; sequential kernel only",
     "anchors": [("test_and_mark", "src/util/metadata/mark_bit.rs"), ("pin_object", "src/util/metadata/pin_bit.rs"), ("log_object", "src/plan/barriers.rs"),
                 ("compare_exchange_metadata", "src/util/metadata/global.rs")],
     "kani": {"prefix": "c18_", "files": ["c18_transitions.rs", "obj.rs", "side.rs", "vm.rs", "interference.rs"], "timeout_quick": 900, "timeout_thorough": 2400,
              "features_quick": [["object_pinning"]], "features_thorough": [["object_pinning"], []],
              "harness_features": {"c18_pin_side": ["object_pinning"], "c18_pin_header_hi": ["object_pinning"], "c18_pin_header_lo": ["object_pinning"]}},
-    "functions": ["MarkState::{new, is_marked, test_and_mark, on_global_release}", "VMLocalMarkBitSpec::{mark, is_marked}",
+    "verus": ["los"],
+    "functions": ["LargeObjectSpace::test_and_mark (Verus unit los, client lemma los_mark_exactly_once: of two consecutive attempts at most the first succeeds, the second changes nothing)", "MarkState::{new, is_marked, test_and_mark, on_global_release}", "VMLocalMarkBitSpec::{mark, is_marked}",
                   "VMLocalPinningBitSpec::{pin_object, unpin_object, is_object_pinned}", "ObjectBarrier::{log_object, object_is_unlogged}",
                   "VMGlobalLogBitSpec::{is_unlogged, mark_as_unlogged}", "MetadataSpec::{load, load_atomic, store_atomic, compare_exchange_metadata} (header and side dispatch)"],
     "explanation": "SEQUENTIAL KERNEL ONLY. For each transition (mark via MarkState, with and without the header-state flip of on_global_release; log via "
@@ -413,7 +414,7 @@ PROPS["C18"] = {
     "assumptions": ["atomicity of each RMW and memory orderings (sequential semantics)", "each caller runs to completion before the next starts"],
     "trusted_base": ["kani::stub of global_side_metadata_base_address", "core::sync::atomic as modelled by Kani/CBMC",
                      "contract stub interference::cas_contract of MetadataSpec::compare_exchange_metadata (interference harnesses only)"],
-    "not_covered": ["overlapping interleavings of the racing threads", "ImmixSpace::attempt_mark and LargeObjectSpace::test_and_mark (need a space instance)",
+    "not_covered": ["overlapping interleavings of the racing threads", "ImmixSpace::attempt_mark (needs a space instance)",
                     "mark_byte_as_unlogged (documented to touch neighbouring objects' bits)"],
 }
 
